@@ -103,7 +103,11 @@ impl LocalSpan {
             if is_recording {
                 let properties = properties();
                 let span_stack = &mut *stack.borrow_mut();
-                span_stack.with_properties(span_handle, || properties);
+                // The closure may have left a new local parent scope open: the span then no
+                // longer belongs to the current span line and there is nothing to add to.
+                if span_stack.is_recording(span_handle) {
+                    span_stack.with_properties(span_handle, || properties);
+                }
             }
         }
 
